@@ -99,6 +99,11 @@ def _cross_owner(ctx, wl, table):
 def _expected_context(ctx, caller):
     """which provenance tags are acceptable at a call made from `caller`."""
     repo = ctx.repo
+    if '.<locals>.' in caller.qualname:
+        # a closure acts in the context of the function that defines it
+        outer = caller.module.funcs.get(caller.qualname.rsplit('.<locals>.', 1)[0])
+        if outer is not None:
+            return _expected_context(ctx, outer)
     if caller.cls is not None:
         mro = [c.name for c in repo.mro(caller.cls)]
         if ELEMENT_BASE in mro and caller.cls.name != ELEMENT_BASE:
@@ -351,7 +356,19 @@ def _name_from_scoped(ctx, func, nm, scoped_names, depth):
         elif kind == 'assign':
             it = s[1]
         elif kind == 'param':
-            return False, 'parameter'
+            # a private helper that receives the rows: every call site must pass rows of a scoped query
+            callers = ctx.cg.callers_of(func) if func.name.startswith('_') and func.cls is None else []
+            if not callers:
+                return False, 'parameter'
+            from ..pyutil import get_arg
+            for caller, call in callers:
+                arg = get_arg(call, func, nm)
+                if not isinstance(arg, ast.AST):
+                    return False, f'parameter `{nm}` not passed by {caller.qualname}'
+                ok, why = _iter_is_scoped(ctx, caller, arg, scoped_names, depth + 1)
+                if not ok:
+                    return False, f'parameter `{nm}` <- {caller.qualname}: {why}'
+            continue
         else:
             return False, kind
         ok, why = _iter_is_scoped(ctx, func, it, scoped_names, depth)
